@@ -223,9 +223,9 @@ Section Facts.
     - (* phase_ref setter *)
       destruct (nth_error cs i) as [c|] eqn:Hi; [|exact I]. simpl.
       unfold phase_ref_setter_rebuilds, rewire_if. apply (inv_replace_same h cs i c); auto. apply consistent_rewire.
-    - (* Tm / Tb / Hfus / Sfus setters *)
+    - (* Tm / Tb / Hfus / Sfus / S0 setters *)
       destruct (nth_error cs i) as [c|] eqn:Hi; [|exact I]. simpl.
-      destruct w; unfold setter_rewires, Tm_setter_rebuilds, Tb_setter_rebuilds, Hfus_setter_patches, Sfus_setter_patches, rewire_if;
+      destruct w; unfold setter_rewires, Tm_setter_rebuilds, Tb_setter_rebuilds, Hfus_setter_patches, Sfus_setter_patches, S0_setter_patches, rewire_if;
         apply (inv_replace_same h cs i c); auto; apply consistent_rewire.
   Qed.
 
